@@ -1,5 +1,6 @@
 import QuaiVerif.Lemmas.TrieInsert
 import QuaiVerif.Lemmas.TrieDelete
+import QuaiVerif.Lemmas.TrieCanonOps
 /-
 C18 — A trie's root depends only on its contents, and proofs prove exactly them.
 
@@ -162,6 +163,65 @@ theorem C18_update_history_refines_map (h : List (List Nat × Option Bytes)) (hh
 example : get (runOps .nil [(keyToHex [1, 2], some [7]), (keyToHex [1], some [8]), (keyToHex [1, 2], none)]) (keyToHex [1]) = some [8] ∧
           get (runOps .nil [(keyToHex [1, 2], some [7]), (keyToHex [1], some [8]), (keyToHex [1, 2], none)]) (keyToHex [1, 2]) = none := by
   decide
+
+/-! ### the root depends only on the content -/
+
+/-- every trie reachable from the empty one by writes and deletes is in canonical form -/
+theorem C18_reachable_tries_canonical (h : List (List Nat × Option Bytes)) (hh : ∀ kv ∈ h, HexKey kv.1) :
+    ∀ t, Canon t → Canon (runOps t h) := by
+  induction h with
+  | nil => intro t ht; exact ht
+  | cons kv rest ih =>
+    intro t ht
+    have hk : HexKey kv.1 := hh kv (by simp)
+    have hunf : runOps t (kv :: rest) = runOps (runOps t [kv]) rest := by simp [runOps]
+    rw [hunf]
+    apply ih (fun x hx => hh x (by simp [hx]))
+    cases hv : kv.2 with
+    | some v => simp only [runOps, List.foldl_cons, List.foldl_nil, hv]; exact canon_insert ht kv.1 hk v
+    | none => simp only [runOps, List.foldl_cons, List.foldl_nil, hv]; exact canon_delete ht kv.1 hk
+
+/-- **C18 (the tree is a function of the content)** two histories of writes and deletes that leave the same content
+produce the same tree, node for node. -/
+theorem C18_same_content_same_tree (h1 h2 : List (List Nat × Option Bytes))
+    (hh1 : ∀ kv ∈ h1, HexKey kv.1) (hh2 : ∀ kv ∈ h2, HexKey kv.1)
+    (hc : ∀ k, HexKey k → contentOps (fun _ => none) h1 k = contentOps (fun _ => none) h2 k) :
+    runOps .nil h1 = runOps .nil h2 := by
+  apply canon_unique (C18_reachable_tries_canonical h1 hh1 .nil Canon.nil) _ (C18_reachable_tries_canonical h2 hh2 .nil Canon.nil)
+  intro k hk
+  rw [C18_update_history_refines_map h1 hh1 k hk, C18_update_history_refines_map h2 hh2 k hk, hc k hk]
+
+/-- **C18 (the root depends only on the content)** hence the same root - under the real hash function (`root`) and under
+any other. -/
+theorem C18_root_depends_only_on_content (h1 h2 : List (List Nat × Option Bytes))
+    (hh1 : ∀ kv ∈ h1, HexKey kv.1) (hh2 : ∀ kv ∈ h2, HexKey kv.1)
+    (hc : ∀ k, HexKey k → contentOps (fun _ => none) h1 k = contentOps (fun _ => none) h2 k) :
+    root (runOps .nil h1) = root (runOps .nil h2) ∧ ∀ H, rootWith H (runOps .nil h1) = rootWith H (runOps .nil h2) := by
+  rw [C18_same_content_same_tree h1 h2 hh1 hh2 hc]
+  exact ⟨rfl, fun _ => rfl⟩
+
+example : runOps .nil [(keyToHex [1, 2], some [7]), (keyToHex [1], some [8]), (keyToHex [3], some [9]), (keyToHex [1, 2], none)] =
+          runOps .nil [(keyToHex [3], some [9]), (keyToHex [1], some [8])] := by
+  have hk : ∀ b : Bytes, (∀ x ∈ b, x < 256) → HexKey (keyToHex b) := C18_keyToHex_is_hexKey
+  have d1 : keyToHex [1] ≠ keyToHex [1, 2] := by decide
+  have d2 : keyToHex [3] ≠ keyToHex [1, 2] := by decide
+  have d3 : keyToHex [1] ≠ keyToHex [3] := by decide
+  apply C18_same_content_same_tree
+  · intro kv hkv
+    simp only [List.mem_cons, List.mem_nil_iff, or_false] at hkv
+    rcases hkv with rfl | rfl | rfl | rfl <;> exact hk _ (by decide)
+  · intro kv hkv
+    simp only [List.mem_cons, List.mem_nil_iff, or_false] at hkv
+    rcases hkv with rfl | rfl <;> exact hk _ (by decide)
+  · intro k _
+    simp only [contentOps, List.foldl_cons, List.foldl_nil]
+    by_cases e1 : k = keyToHex [1, 2]
+    · subst e1; simp [d1.symm, d2.symm]
+    · by_cases e2 : k = keyToHex [3]
+      · subst e2; simp [e1, d3.symm]
+      · by_cases e3 : k = keyToHex [1]
+        · subst e3; simp [e1, e2]
+        · simp [e1, e2, e3]
 
 /-! ### Non-vacuity: a concrete history with a shared prefix and a key that is a prefix of another -/
 example : get (runInserts .nil [(keyToHex [1, 2], [7]), (keyToHex [1], [8]), (keyToHex [1, 2], [9])]) (keyToHex [1, 2]) = some [9] := by
